@@ -92,6 +92,28 @@ def expand(ctx, fi: FuncInfo, e: ast.AST, at: Optional[ast.AST] = None, depth: i
                 return n
             # the definition is evaluated where it was made: expand it in its own position
             return expand(ctx, fi, copy.deepcopy(val), val, depth + 1, pure_only)
+        def visit_Subscript(self, n):
+            n = self.generic_visit(n)
+            # helper(a, b)[i] where helper's only return is a tuple display over its parameters: element i with the arguments put in
+            if isinstance(n, ast.Subscript) and isinstance(n.slice, ast.Constant) and isinstance(n.slice.value, int) and isinstance(n.value, ast.Call) \
+                    and not n.value.keywords and not any(isinstance(a, ast.Starred) for a in n.value.args):
+                hs = [t.func for t in ctx.cg.resolve_call(n.value, fi) if t.kind == 'func']
+                if len(hs) == 1 and len(ctx.cg.resolve_call(n.value, fi)) == 1:
+                    h = hs[0]
+                    rets = [x for x in walk_local(h.node) if isinstance(x, ast.Return) and x.value is not None]
+                    pos = h.positional[1:] if h.is_method() and 'staticmethod' not in h.decorators() else h.positional
+                    if len(rets) == 1 and isinstance(rets[0].value, ast.Tuple) and 0 <= n.slice.value < len(rets[0].value.elts) and len(pos) == len(n.value.args) \
+                            and not any(ctx.cg.local_assigns(h).get(p_) for p_ in pos):
+                        elt = rets[0].value.elts[n.slice.value]
+                        names = {x.id for x in ast.walk(elt) if isinstance(x, ast.Name)}
+                        if names <= set(pos) and not any(isinstance(x, ast.Call) for x in ast.walk(elt)):
+                            env = dict(zip(pos, n.value.args))
+
+                            class S(ast.NodeTransformer):
+                                def visit_Name(self, m):
+                                    return copy.deepcopy(env[m.id]) if m.id in env else m
+                            return S().visit(copy.deepcopy(elt))
+            return n
     try:
         return R().visit(copy.deepcopy(e) if depth == 0 else e)
     except RecursionError:
